@@ -35,4 +35,48 @@ SPECS = {
         partial=["C05_partial: full statement minus CommaSafe/precSafe; excluded classes are known findings K05a, K05bcd; return/event sites additionally K05g (add_types_prefix)",
                  "parse_print (parseTsTy (printSpec t) = some t) is tested per case, not proved"],
     ),
+    "C04": dict(
+        groups=["params"],
+        theorems="Typegen.Theorems.C04",
+        trusted_base=[LEAN_TB, HARNESS_TB,
+                      "spec: H.heckLowerCamel transcribes heck 0.5 to_lower_camel_case on [a-z0-9_]* (compared per case with the real heck crate); Tauri's macro crate is not in the registry",
+                      "modelled: serde-rename-rule 0.2.3 apply_to_field (vendored); char::to_ascii_* on ASCII"],
+        assumptions=["parameter names are ASCII snake_case identifiers for the key-rule theorem; other names are compared model=implementation only",
+                     "which parameters are injected / channels (the filtering half of C04) is decided by the project-level op, see DESIGN.md"],
+        rule="39 table identifiers (snake incl. digits, leading/trailing/consecutive underscores, odd and non-ASCII names) x 9 default_parameter_case values x "
+             "3 command-level rules x 2 rename options; function/type/event names; random snake identifiers (length <=12); "
+             "non-trivial = name of >=2 chars; distinct = hash of the input tuple",
+        exhaustive={"quick": False, "thorough": False},
+    ),
+    "C06": dict(
+        groups=["fields"],
+        theorems="Typegen.Theorems.C06",
+        trusted_base=[LEAN_TB, HARNESS_TB,
+                      "spec: N.serdeName / N.applyVariant transcribe serde_derive internals/case.rs (apply_to_field / apply_to_variant), is_uppercase on ASCII",
+                      "modelled, not verified: proc_macro2's Display of the attribute token stream (the harness hands the real token text to the model on every case); syn"],
+        assumptions=["identifiers ASCII; duplicate serde items (rejected by serde_derive) are outside the domain",
+                     "'unattributed items keep their Rust name' is read under the default default_field_case (snake_case = identity)"],
+        rule="identifier tables (30 snake fields, 16 variants, 9 odd names) x {no rule, 8 rules, invalid rule} x 5 rename options x {field, variant}; "
+             "attribute items {rename(4 values), skip, skip_serializing_if, default, default=path (2), alias (2), skip_deserializing, skip_serializing, with} "
+             "singly and in ordered pairs, in one or two attributes, under 11 container attribute sets (quick: pairs sampled 1 in 6); "
+             "non-trivial = at least one attribute item or name >=2 chars; distinct = hash of the input",
+        exhaustive={"quick": False, "thorough": True},
+        exhaustive_scope={"thorough": "all single items and ordered pairs x 2 placements x 11 containers"},
+        partial=["C06_variant_names_partial: variants only for {PascalCase, camelCase, UPPERCASE} on UpperCamel identifiers (rest = K06a)",
+                 "attribute scanner: skip decision proved for all token lists (C06_skip_tokens); the rename scanner is tied by correspondence + witnesses (K06b-d)"],
+    ),
+    "C11": dict(
+        groups=["valid"],
+        theorems="Typegen.Theorems.C11",
+        trusted_base=[LEAN_TB, HARNESS_TB,
+                      "f64: text -> f64 -> Display goes through Rust's std; the model prints the canonical decimal of the literal (VP.canonDec), compared per case with the real Display; literals with > 15 significant digits or non-finite values are outside the comparison",
+                      "spec lexer P.lexJsString: JS double-quoted string literal with escapes \\ \" \n \r \t",
+                      "modelled, not verified: proc_macro2 Display of the attribute tokens (real text handed to the model per case); syn"],
+        assumptions=["messages are double-quoted Rust string literals", "one field per case; 'never attached to a different field' is covered at project level"],
+        rule="all subsets of (min,max,message) x 3 key orders x 10 field types for length and range (quick: 1 in 3), 18 numeric literal shapes, "
+             "28 fixed messages (quotes, backslashes, parentheses, keywords, multi-byte) in two item contexts, combined/multiple attributes, "
+             "random messages over a Unicode alphabet with multi-byte characters at every offset; non-trivial = at least one validator item; distinct = hash of input",
+        exhaustive={"quick": False, "thorough": False},
+        partial=["rendering stage proved for all validator values (C11_*_chain, escape_exact); scanner stage proved on instances, exclusion classes K11b-K11g are known findings"],
+    ),
 }
